@@ -154,6 +154,11 @@ DKChain(deco) ==
                                  t |-> [dynamicAnchor |-> "T", type |-> "string"]]],
              generic |-> [id |-> IdOf(RelRef(<<"generic">>)), items |-> [dynamicRef |-> LocalRef(FragName("T"))],
                           defs |-> [t |-> [dynamicAnchor |-> "T"]]]]]
+\* ... and a PLAIN $anchor of the same name in an inert spot of the outermost resource (an unreferenced $defs entry,
+\* contentSchema) hides nothing: only $dynamicAnchor takes part in the dynamic scope
+DKChainRootDeco == {[s |-> [DKChain(EmptyFcn) EXCEPT !.defs = @ @@ [zz |-> d]]] : d \in {[anchor |-> "T"], [anchor |-> "T", type |-> "object"], [anchor |-> "T", description |-> "d"]}}
+                   \cup {[s |-> DKChain(EmptyFcn) @@ [contentSchema |-> [anchor |-> "T", type |-> "object"]]]}
+DKChainRootCases == {[base |-> DKChain(EmptyFcn), s |-> x.s, raw |-> FALSE, uri |-> DKChainURI] : x \in DKChainRootDeco}
 DKChainCases == {[base |-> DKChain(EmptyFcn), s |-> DKChain(d), raw |-> ("rawkeys" \in DOMAIN d), uri |-> DKChainURI] : d \in DKDecos \cup DKRaw}
 \* an UNREFERENCED $defs entry that is a schema resource of its own ($id) and uses, inside, the same reference
 \* text as the enclosing document ("#/$defs/name"): a fragment-only reference is relative to ITS resource
@@ -194,6 +199,10 @@ DKOk(c) == c.s # c.base
 \* Marshal(Unmarshal(d)) is d up to the DOCUMENTED normalisations: boolean forms, integral floats,
 \* omitted zero-valued keywords.  (Texts, because the normalisations are about spelling.)
 RDCases == {
+  \* unknown keywords hold ANY JSON value - numbers no float64 can hold included
+  [doc |-> "{\"x-foo\":1e999}", norm |-> "{\"x-foo\":1e999}"],
+  [doc |-> "{\"x-foo\":[1,{\"a\":-1e400}],\"type\":\"integer\"}", norm |-> "{\"x-foo\":[1,{\"a\":-1e400}],\"type\":\"integer\"}"],
+  [doc |-> "{\"properties\":{\"a\":{\"x-n\":12345678901234567890123e400,\"x-m\":1.5}}}", norm |-> "{\"properties\":{\"a\":{\"x-n\":12345678901234567890123e400,\"x-m\":1.5}}}"],
   [doc |-> "true", norm |-> "true"],
   [doc |-> "false", norm |-> "false"],
   [doc |-> "{}", norm |-> "true"],
@@ -260,19 +269,23 @@ RDBadSubs == {"{\"type\":\"string\",\"maxLength\":4294967296}", "{\"pattern\":\"
 RDWrapPre == {"{\"items\":", "{\"type\":\"array\",\"items\":", "{\"additionalProperties\":", "{\"not\":", "{\"contains\":", "{\"propertyNames\":",
               "{\"if\":", "{\"unevaluatedItems\":", "{\"unevaluatedProperties\":", "{\"additionalItems\":", "{\"contentSchema\":",
               "{\"then\":", "{\"else\":"}
+\* known finding KF-examples-C18: "examples" (a non-asserting keyword holding any JSON values) with a number no float64 holds
+RDKnownCases == {[doc |-> "{\"examples\":[1e999]}", norm |-> "{\"examples\":[1e999]}", feat |-> "examples-beyond-float64", featprop |-> "C18"],
+                 [doc |-> "{\"type\":\"integer\",\"examples\":[1,{\"a\":-1e400}]}", norm |-> "{\"type\":\"integer\",\"examples\":[1,{\"a\":-1e400}]}",
+                  feat |-> "examples-beyond-float64", featprop |-> "C18"]}
 RDOptCases == {[doc |-> w \o b \o "}", norm |-> w \o b \o "}", opt |-> TRUE] : w \in RDWrapPre, b \in RDBadSubs}
               \cup {[doc |-> "{\"properties\":{\"a\":" \o b \o "}}", norm |-> "{\"properties\":{\"a\":" \o b \o "}}", opt |-> TRUE] : b \in RDBadSubs}
               \cup {[doc |-> "{\"allOf\":[" \o b \o "]}", norm |-> "{\"allOf\":[" \o b \o "]}", opt |-> TRUE] : b \in RDBadSubs}
               \cup {[doc |-> "{\"items\":{\"items\":" \o b \o "}}", norm |-> "{\"items\":{\"items\":" \o b \o "}}", opt |-> TRUE] : b \in RDBadSubs}
               \cup {[doc |-> "{\"$defs\":{\"x\":" \o b \o "}}", norm |-> "{\"$defs\":{\"x\":" \o b \o "}}", opt |-> TRUE] : b \in RDBadSubs}
 Cases == CASE Family = "PO" -> POCases
-           [] Family = "RD" -> RDCases \cup RDOptCases
+           [] Family = "RD" -> RDCases \cup RDOptCases \cup RDKnownCases
            [] Family = "RT" -> {[s |-> v] : v \in {x \in RTValues(0) : RTOk(x)}}
            \* (the undecorated bases are replayed as well: "with and without the decoration" has two sides)
            [] Family = "DK" -> {c \in DKCases \cup DKChainCases : DKOk(c)}
                                \cup {[base |-> b, s |-> b, raw |-> FALSE, uri |-> EmptyURI] : b \in DKBases}
                                \cup {[base |-> DKChain(EmptyFcn), s |-> DKChain(EmptyFcn), raw |-> FALSE, uri |-> DKChainURI]}
-                               \cup DKVendorCases \cup DKRemoteCases \cup DKTitledCases \cup DKTwiceCases
+                               \cup DKVendorCases \cup DKRemoteCases \cup DKTitledCases \cup DKTwiceCases \cup DKChainRootCases
 
 Init == cs \in Cases /\ phase = "new"
 Next == phase = "new" /\ phase' = "done" /\ cs' = cs
